@@ -535,29 +535,23 @@ func TestVerifC04(t *testing.T) {
 			emit(c04Job{client: ci, mode: "script", early: pickEarly(), cuts: []int{c}})
 		}
 	}
-	// ---- every 2-cut of the first flight: min and every prefix id (flush / port / phantom rotate);
-	//      exhaustive in thorough, sampled in quick
-	n2 := vlib.Budget(2500, 0)
-	for _, pid := range append([]int32{-1}, c34PrefixIDs...) {
-		group := minC
-		if pid >= 0 {
-			group = byPrefix[pid]
-		}
-		fl := c04Flightlen(pclients[group[0]])
-		k := 0
-		if thorough {
+	// ---- every 2-cut of the first flight. thorough: exhaustive for min and every prefix id x flush
+	//      policy x port mode among the other registrations of the many-phantom, sampled for the same
+	//      clients alone on their phantom; quick: sampled for every client
+	all := append(append([]int(nil), minC...), prefC...)
+	for _, ci := range all {
+		fl := c04Flightlen(pclients[ci])
+		if thorough && pclients[ci].phantom == c34PhMany {
 			for c1 := 1; c1 < fl; c1++ {
 				for c2 := c1 + 1; c2 <= fl; c2++ {
-					emit(c04Job{client: group[k%len(group)], mode: "script", early: pickEarly(), cuts: []int{c1, c2}})
-					k++
+					emit(c04Job{client: ci, mode: "script", early: pickEarly(), cuts: []int{c1, c2}})
 				}
 			}
-		} else {
-			for i := 0; i < n2/11; i++ {
-				c1 := r.Range(1, fl-1)
-				c2 := r.Range(c1+1, fl)
-				emit(c04Job{client: group[r.Intn(len(group))], mode: "script", early: pickEarly(), cuts: []int{c1, c2}})
-			}
+			continue
+		}
+		for i := vlib.Budget(20, 300); i > 0; i-- {
+			c1 := r.Range(1, fl-1)
+			emit(c04Job{client: ci, mode: "script", early: pickEarly(), cuts: []int{c1, r.Range(c1+1, fl)}})
 		}
 	}
 	// ---- random k-cuts anywhere in flight ++ early, later writes, both carriers
@@ -599,7 +593,7 @@ func TestVerifC04(t *testing.T) {
 			emit(c04Job{client: ci, mode: "pipe", early: []int{0, 13, 1000}[r.Intn(3)], cuts: []int{c}})
 		}
 	}
-	no := vlib.Budget(120, 8200)
+	no := vlib.Budget(120, 20000)
 	for i := 0; i < no; i++ {
 		ci := obfsC[r.Intn(len(obfsC))]
 		j := c04Job{client: ci, mode: "pipe", early: []int{0, 1, 13, 100, 1000, 5000}[r.Intn(6)]}
